@@ -1,6 +1,6 @@
 SPECIFICATION Spec
 CONSTANTS Chains = {"neo"}
-          Ns = {1, 2, 3, 4}
+          Ns = {1, 2, 3, 4, 5}
           LightNs = {7}
           ExhN = 2
           ExhL = 3
